@@ -13,7 +13,7 @@ import builtins
 import z3
 
 from ..common import Report, pmap, trace_functions, worker_result
-from ..netharness import Deadlock, NetExecutor, ok_k, ok_m, pauli_frames
+from ..netharness import ok_k_qlink1, ok_m_qlink1, Deadlock, NetExecutor, ok_k, ok_m, pauli_frames
 from ..pipeline import PipeConnection
 from ..symx import EQ, Explorer, Infeasible, ITE, Ob, PathAbort, SymInt, run_concrete, term
 
@@ -38,6 +38,10 @@ def _sym_int(x):
 
 
 build_epr.int = _sym_int
+
+
+BELL_NAMES = ["PHI_PLUS", "PSI_PLUS", "PSI_MINUS", "PHI_MINUS"]
+NETQASM_BELL_INDEX = {"PHI_PLUS": 0, "PSI_PLUS": 1, "PSI_MINUS": 2, "PHI_MINUS": 3}      # |00>+|11>, |01>+|10>, |01>-|10>, |00>-|11>
 
 
 def bell_pauli_bits(b):
@@ -80,9 +84,18 @@ def body_keep(spec, falsify=False):
 
     def body(inp):
         conn, sock, ex, others = mk_conn(hw, n_other, [inp.bit(f"out{i}") for i in range(number)])
-        bells = [inp.int(f"bell{i}", 0, 3) for i in range(number)]
+        wire = spec.get("wire", "netqasm")
+        if wire == "qlink1":
+            # the link layer answers in qlink-interface 1.0 form and names the Bell state with THAT interface's enum; what counts is the
+            # state it names (the two interfaces number the states differently)
+            names = [BELL_NAMES[inp.choice(f"bellname{i}", 4)] for i in range(number)]
+            bells = [NETQASM_BELL_INDEX[nm] for nm in names]
+        else:
+            bells = [inp.int(f"bell{i}", 0, 3) for i in range(number)]
         built = False
         site = {"variant": variant, "hw": hw}
+        if wire != "netqasm":
+            site["wire"] = wire
 
         def post(c, q, pair):
             q.H()             # marker: the application uses the qubit here
@@ -114,8 +127,11 @@ def body_keep(spec, falsify=False):
             built = True
             creator = variant.startswith("create")
             for i in range(number):
-                ex.deliveries.append(ok_k(ex, creator=creator, purpose_id=0, remote_node_id=1, bell_state=bells[i], seq=i,
-                                          create_id=inp.int(f"cid{i}"), goodness=inp.int(f"good{i}")))
+                if wire == "qlink1":
+                    ex.deliveries.append(ok_k_qlink1(ex, creator=creator, purpose_id=0, remote_node_id=1, bell_name=names[i], seq=i, create_id=i, goodness=7))
+                else:
+                    ex.deliveries.append(ok_k(ex, creator=creator, purpose_id=0, remote_node_id=1, bell_state=bells[i], seq=i,
+                                              create_id=inp.int(f"cid{i}"), goodness=inp.int(f"good{i}")))
             conn.flush()
         except (PathAbort, Infeasible):
             raise
@@ -341,6 +357,10 @@ def main(tier, seed):
         for number in range(1, maxn + 1):
             specs.append({"kind": "measure", "role": role, "number": number})
         specs.append({"kind": "measure", "role": "recv", "number": 2, "expect": False})
+    # the same, with the link layer speaking qlink-interface 1.0 (its own Bell-state enum)
+    for variant in ("recv_keep_post", "recv_keep_seq", "recv_rsp"):
+        specs.append({"kind": "keep", "variant": variant, "hw": "generic", "n_other": 0, "number": 2 if variant != "recv_rsp" else 1, "wire": "qlink1"})
+    specs.append({"kind": "keep", "variant": "recv_keep", "hw": "nv", "n_other": 0, "number": 1, "wire": "qlink1"})
     rep.bounds = [f"keep: 8 API variants x generic/NV hardware config x 0..2 other live qubits x 1..{maxn} pairs, all Bell-index tuples symbolic (0..3 each), with and without expect_phi_plus",
                   "measure-directly post-processing: rotation triples symbolic in 0..31^3 (local, and remote equal or independent), Bell index, raw outcome symbolic",
                   f"recv_measure / create_measure end to end: 1..{maxn} pairs, Bell indices, outcomes symbolic, response basis Z/X/Y"]
